@@ -501,4 +501,165 @@ example : IsParse (entries exRefs)
   rw [← h]
   exact parse_isParse _ _
 
+/-! ### the value of a reference: `:output` contents reach the command line minus the final newlines only -/
+
+private theorem dropTrailingNewlines_replicate (n : Nat) :
+    dropTrailingNewlines (List.replicate n '\n') = [] := by
+  induction n with
+  | zero => rfl
+  | succ n ih => simp [List.replicate_succ, dropTrailingNewlines, ih]
+
+/-- the file's text is the substituted value followed by newline characters only … -/
+theorem outputValue_decomp (c : S) : ∃ n, c = outputValue c ++ List.replicate n '\n' := by
+  unfold outputValue
+  induction c with
+  | nil => exact ⟨0, rfl⟩
+  | cons a s ih =>
+    obtain ⟨n, hn⟩ := ih
+    simp only [dropTrailingNewlines]
+    cases h : dropTrailingNewlines s with
+    | nil =>
+      rw [h] at hn
+      simp only [List.nil_append] at hn
+      by_cases ha : a = '\n'
+      · exact ⟨n + 1, by simp [ha, hn, List.replicate_succ]⟩
+      · exact ⟨n, by simp [ha, ← hn]⟩
+    | cons d r =>
+      rw [h] at hn
+      exact ⟨n, by simp [← hn]⟩
+
+/-- … and the substituted value does not end in a newline: all final newlines are dropped. -/
+theorem outputValue_no_final_newline (c : S) : (outputValue c).getLast? ≠ some '\n' := by
+  unfold outputValue
+  induction c with
+  | nil => simp [dropTrailingNewlines]
+  | cons a s ih =>
+    simp only [dropTrailingNewlines]
+    cases h : dropTrailingNewlines s with
+    | nil =>
+      by_cases ha : a = '\n'
+      · simp [ha]
+      · simp [ha]
+    | cons d r =>
+      rw [h] at ih
+      simpa [List.getLast?_cons_cons] using ih
+
+/-- **Nothing else is stripped.**  Whatever the text `v` is — leading blanks, tabs, blank lines, trailing blanks,
+tabs or carriage returns, interior newlines, reference-like text — as long as it does not itself end in a
+newline, a file holding `v` followed by any number of newlines is substituted as exactly `v`.  Together with
+`outputValue_decomp`/`outputValue_no_final_newline` this characterises `outputValue` uniquely. -/
+theorem outputValue_exact (v : S) (n : Nat) (hv : v.getLast? ≠ some '\n') :
+    outputValue (v ++ List.replicate n '\n') = v := by
+  unfold outputValue
+  induction v with
+  | nil => simpa using dropTrailingNewlines_replicate n
+  | cons a w ih =>
+    cases w with
+    | nil =>
+      have ha : a ≠ '\n' := by simpa using hv
+      simp [dropTrailingNewlines, dropTrailingNewlines_replicate, ha]
+    | cons b w' =>
+      have hv' : (b :: w').getLast? ≠ some '\n' := by simpa [List.getLast?_cons_cons] using hv
+      have := ih hv'
+      simp only [List.cons_append] at this ⊢
+      rw [dropTrailingNewlines, this]
+
+/-- a file that does not end in a newline is substituted verbatim -/
+theorem outputValue_verbatim (c : S) (hc : c.getLast? ≠ some '\n') : outputValue c = c := by
+  simpa using outputValue_exact c 0 hc
+
+/-- the text-mode read of the `:loopoutput` branch leaves a text without carriage returns unchanged … -/
+theorem universalNewlines_id (s : S) (h : '\r' ∉ s) : universalNewlines s = s := by
+  unfold universalNewlines
+  induction s with
+  | nil => rfl
+  | cons c t ih =>
+    have hc : c ≠ '\r' := fun e => h (by simp [e])
+    have ht : '\r' ∉ t := fun e => h (List.mem_cons_of_mem _ e)
+    simp [unlAux, hc, ih ht]
+
+/-- … so for such files a loop instance contributes exactly what an `:output` reference would -/
+theorem loopInstanceValue_eq_outputValue (c : S) (h : '\r' ∉ c) : loopInstanceValue c = outputValue c := by
+  simp [loopInstanceValue, outputValue, universalNewlines_id c h]
+
+/-- value of a `:loopoutput` reference all of whose instance files exist: the instance values joined by one blank -/
+theorem loopoutput_value (cs : List S) :
+    (Source.files (cs.map some)).value? = some (join [' '] (cs.map loopInstanceValue)) := by
+  have hp : present (cs.map some) = cs := by
+    induction cs with
+    | nil => rfl
+    | cons c cs ih => simpa [present] using ih
+  have h0 : countMissing (cs.map some) = 0 := by
+    clear hp
+    induction cs with
+    | nil => rfl
+    | cons c cs ih => simpa [countMissing] using ih
+  simp [Source.value?, h0, hp]
+
+private theorem dictGet_of_mem (es : List (S × S)) (hf : Functional es) (k v : S) (hm : (k, v) ∈ es) :
+    dictGet es k = some v := by
+  induction es with
+  | nil => cases hm
+  | cons e es ih =>
+    obtain ⟨k0, v0⟩ := e
+    simp only [dictGet]
+    by_cases hk : k = k0
+    · subst hk
+      have : v0 = v := hf (k, v0) (by simp) (k, v) hm rfl
+      simp [this]
+    · simp only [hk, if_false]
+      have hm' : (k, v) ∈ es := by
+        rcases List.mem_cons.mp hm with h | h
+        · exact absurd (congrArg Prod.fst h) hk
+        · exact h
+      exact ih (fun e1 h1 e2 h2 => hf e1 (List.mem_cons_of_mem _ h1) e2 (List.mem_cons_of_mem _ h2)) hm'
+
+/-- **An `:output` token is replaced by the contents of its file minus the final newlines, nothing else
+stripped.**  For every list of declarations, every declared `:output` reference `d` whose file holds `c`, either
+spelling `k` of it and every continuation `rest` of the argument string: when `k` is the longest declared spelling
+starting here, the resolved text is `outputValue c` — by `outputValue_decomp`, `outputValue_no_final_newline` and
+`outputValue_exact` exactly `c` without its final newline characters — followed by the resolution of `rest`. -/
+theorem output_token_replaced_by_contents (decls : List Decl) (d : Decl) (c k rest : S)
+    (hd : d ∈ decls) (hkind : d.kind = .output) (hsrc : d.source = .file (some c))
+    (hk : k ∈ d.toRef.spellings) (hne : k ≠ [])
+    (hf : Functional (entries (decls.map Decl.toRef)))
+    (hlong : ∀ e ∈ entries (decls.map Decl.toRef), e.1.isPrefixOf (k ++ rest) = true → e.1.length ≤ k.length) :
+    subst (entries (decls.map Decl.toRef)) (k ++ rest)
+      = outputValue c ++ subst (entries (decls.map Decl.toRef)) rest := by
+  have hm : (k, outputValue c) ∈ entries (decls.map Decl.toRef) := by
+    rw [mem_entries]
+    refine ⟨d.toRef, List.mem_map.mpr ⟨d, hd, rfl⟩, ?_, hk⟩
+    simp [Ref.subst?, Decl.toRef, hkind, hsrc, Source.value?]
+  exact token_replaced_whole _ k _ rest hne (dictGet_of_mem _ hf k _ hm) hlong
+
+/-- an `:output` reference whose file does not exist yet is replaced by the empty string -/
+theorem missing_output_is_empty (d : Decl) (hkind : d.kind = .output) (hsrc : d.source = .file none) :
+    d.toRef.subst? = some [] := by
+  simp [Ref.subst?, Decl.toRef, hkind, hsrc, Source.value?]
+
+/-- the results about `resolve` apply to `resolveD` as they stand (it is `resolve` on the computed values);
+in particular the result is independent of the declaration order -/
+theorem resolveD_perm (decls decls' : List Decl) (args : S) (hp : decls.Perm decls')
+    (hf : functionalB (entries (decls.map Decl.toRef)) = true) :
+    (resolveD decls args).out = (resolveD decls' args).out ∧
+    (resolveD decls args).unresolved = (resolveD decls' args).unresolved ∧
+    (resolveD decls args).unused.Perm (resolveD decls' args).unused :=
+  resolve_perm _ _ args (hp.map _) hf
+
+/-- a fixed-column record with leading and trailing blanks and two final newlines … -/
+def exDecls : List Decl :=
+  [ { abs := "stage0.A/rec:output".toList, rel := "A/rec:output".toList, relActive := true, kind := .output,
+      source := .file (some "  ATOM  1 \t\n\n".toList) },
+    { abs := "stage0.BA:ref".toList, rel := "BA:ref".toList, relActive := true, kind := .ref,
+      source := .path "/i/s0/BA".toList } ]
+
+/-- … reaches the command line with every blank and tab, without the two newlines (hypotheses of
+`output_token_replaced_by_contents` are satisfiable and the conclusion is not vacuous) -/
+example : (resolveD exDecls "-r=[A/rec:output] BA:ref".toList).out = "-r=[  ATOM  1 \t] /i/s0/BA".toList := by decide
+
+example : functionalB (entries (exDecls.map Decl.toRef)) = true := by decide
+
+/-- a `:loopoutput` over two loop instances (CRLF file read in text mode) -/
+example : (Source.files [some " a\r\n".toList, some "b \n\n".toList]).value? = some " a b ".toList := by decide
+
 end St4sd.C10
